@@ -1044,7 +1044,7 @@ def _wire(rep, tier, prop, kinds, judge, env=None):
     rep.add_tlc(st, "MC_Wire")
     rep.vacuity(["AReadKind", "AReadSrc", "AReadWith", "AReadDst", "AReadFrom", "ASerialize", "ARespell", "AParse", "AReserialize", "ARecognise"])
     rep.cov["exhaustive"] = True
-    sh.run(env_extra=env)
+    sh.run(env_extra=env, timeout=3 * 3600)
     n = 0
     for r in sh.results():
         n += 1
@@ -1113,7 +1113,7 @@ def check_C17(rep, tier):
 
     # content damages: this many leaves per document (spread over the whole document), every damage kind at each
     _wire(rep, tier, "C17", ("rule", "link", "layout", "pred", "stmt"), judge,
-          env={"ITV_DAMAGE_LEAVES": "16" if tier == "quick" else "80"})
+          env={"ITV_DAMAGE_LEAVES": "16" if tier == "quick" else "40"})
     rep.cov["evaluations"] *= 48
     # the link directory as a channel: the bytes of a signed link file (as written, padded, ill-formed UTF-8 in place of
     # a character, things before / after) count as evidence exactly when the slice is a validly signed block
